@@ -362,4 +362,13 @@ static std::string dispatch(const std::string &op, const Args &a)
     exit(2);
 }
 
-int main(int argc, char **argv) { return run_main(argc, argv, dispatch); }
+static std::string num_probe()
+{
+    std::ostringstream o;
+    o << hex(ST::string::from_int(-123456789, 10)) << "|" << hex(ST::string::from_uint(0xdeadbeefu, 16, true)) << "|" << hex(ST::string::from_int(-32768, 2))
+      << "|" << hex(ST::string::from_double(1.5e100, 'e')) << "|" << ST_LITERAL("-42").to_int() << "|" << ST_LITERAL("ff").to_uint(16)
+      << "|" << ST_LITERAL("2.5").to_double() << "|" << ST_LITERAL("TRUE").to_bool();
+    return o.str();
+}
+
+int main(int argc, char **argv) { vh::g_probe = num_probe; return run_main(argc, argv, dispatch); }
